@@ -29,7 +29,7 @@ func checkFor(prop string, g Cfg, prev, cur *Obs, o Op, out Outcome, led *Ledger
 	if prop == "C16" {
 		return CheckC16(g, prev, cur, o, out, led)
 	}
-	return CheckC17(g, prev, cur, o, out)
+	return CheckC17(g, prev, cur, o, out, nil)
 }
 
 // Execute runs a fixed case on the implementation.
@@ -265,6 +265,17 @@ func Main(prop string) {
 		"native glue of builtin/staker_native.go (authority check before PoS, pause switches, delegator-contract check) is outside the model",
 	}
 	if ctx.Replay != "" {
+		if b, err := os.ReadFile(ctx.Replay); err == nil {
+			var doc struct {
+				Replay struct {
+					C *CCase `json:"contract_case"`
+				} `json:"replay"`
+			}
+			if json.Unmarshal(b, &doc) == nil && doc.Replay.C != nil {
+				ReplayContract(ctx, prop, doc.Replay.C)
+				ctx.Finish(rule, assumptions)
+			}
+		}
 		c, ok := load(ctx.Replay)
 		if !ok {
 			hx.Fatal("cannot read replay %s", ctx.Replay)
@@ -283,6 +294,9 @@ func Main(prop string) {
 		}
 	}
 	n := ctx.Scale(800, 20000)
+	if os.Getenv("VERIF_STAKER_ONLY") == "contract" { // development aid: only the contract-level slice
+		n = 0
+	}
 	nops := 160
 	root := hx.NewRand(ctx.Seed)
 	const batch = 20
@@ -326,6 +340,7 @@ func Main(prop string) {
 			report(ctx, prop, t, answers[i])
 		}
 	}
+	ContractSlice(ctx, prop)
 	ctx.Finish(rule, assumptions)
 }
 
